@@ -687,7 +687,8 @@ def roll_constant_waveforms(program: Loop, minimal_waveform_quanta: int, wavefor
 
     waveform = program.waveform
 
-    if waveform is None:
+    if waveform is None or not program.is_leaf():
+        # only leaves play their waveform: the duration of a loop with children is the duration of its children
         for child in program:
             roll_constant_waveforms(child, minimal_waveform_quanta, waveform_quantum, sample_rate)
     else:
